@@ -82,6 +82,37 @@ pub fn check_string(s: &str, st: &mut Stats, mode: Count) {
             (Err(e), Ok(b)) => st.fail(format!("string:accepts-unparseable:{name}"), case(), s.len(), format!("{name} -> Ok({b}), parsing gives Err({e:?})")),
         }
     }
+    // deserialize_in_place on a target that already holds a value with variants: the target
+    // must end up equal to the parsed value (on success)
+    let inplace = guard(|| {
+        let mut target: LanguageIdentifier = "ca-Latn-ES-valencia-1996".parse().unwrap();
+        let plain = serde_json::to_string(s).unwrap_or_else(|_| "\"\"".into());
+        let mut de = serde_json::Deserializer::from_str(&plain);
+        let r = <LanguageIdentifier as Deserialize>::deserialize_in_place(&mut de, &mut target).map_err(|e| e.to_string());
+        let mut t2: Vec<LanguageIdentifier> = vec!["ca-ES-valencia".parse().unwrap(), "sl-rozaj-biske".parse().unwrap()];
+        let arr = format!("[{plain},{plain}]");
+        let mut de2 = serde_json::Deserializer::from_str(&arr);
+        let r2 = <Vec<LanguageIdentifier> as Deserialize>::deserialize_in_place(&mut de2, &mut t2).map_err(|e| e.to_string());
+        (r, target, r2, t2)
+    });
+    match inplace {
+        Err(p) => st.fail(format!("string:in-place:{}", panic_sig(&p)), case(), s.len(), format!("deserialize_in_place panicked: {p:?}")),
+        Ok((r, target, r2, t2)) => match &parsed {
+            Ok(a) => {
+                if r.is_err() || target != *a || target.to_string() != a.to_string() {
+                    st.fail("string:in-place-differs", case(), s.len(), format!("deserialize_in_place into ca-Latn-ES-valencia-1996 gives {r:?} / {target}, parsing gives {a}"));
+                }
+                if r2.is_err() || t2.len() != 2 || t2.iter().any(|x| x != a) {
+                    st.fail("string:in-place-vec-differs", case(), s.len(), format!("Vec::deserialize_in_place gives {r2:?} / {:?}, parsing gives {a}", t2.iter().map(|x| x.to_string()).collect::<Vec<_>>()));
+                }
+            }
+            Err(_) => {
+                if r.is_ok() || r2.is_ok() {
+                    st.fail("string:in-place-accepts-unparseable", case(), s.len(), format!("deserialize_in_place -> Ok({target})"));
+                }
+            }
+        },
+    }
     let toks = model::split(s.as_bytes());
     if parsed.is_ok() {
         st.class("string:accepted");
@@ -128,6 +159,47 @@ pub fn check_value(li: &LanguageIdentifier, case: &Value, st: &mut Stats, mode: 
     }
     if val != Value::String(canon.clone()) {
         st.fail("value:to_value-not-the-canonical-string", case.clone(), size, format!("to_value gives {val}, expected string {canon}"));
+    }
+    // a serialisation that fails half-way (writer runs out of room) must not affect later ones
+    {
+        struct Limited(usize);
+        impl std::io::Write for Limited {
+            fn write(&mut self, buf: &[u8]) -> std::io::Result<usize> {
+                if buf.len() > self.0 {
+                    self.0 = 0;
+                    Err(std::io::Error::new(std::io::ErrorKind::WriteZero, "full"))
+                } else {
+                    self.0 -= buf.len();
+                    Ok(buf.len())
+                }
+            }
+            fn flush(&mut self) -> std::io::Result<()> {
+                Ok(())
+            }
+        }
+        let r = guard(|| {
+            let mut outcomes = vec![];
+            for room in [0usize, 1, want.len() / 2, want.len() - 1] {
+                outcomes.push(serde_json::to_writer(Limited(room), li).is_ok());
+                let mut small = [0u8; 3];
+                outcomes.push(serde_json::to_writer(&mut small[..], li).is_ok());
+            }
+            let again = serde_json::to_string(li).unwrap_or_default();
+            let other: LanguageIdentifier = "fr".parse().unwrap();
+            let other_s = serde_json::to_string(&other).unwrap_or_default();
+            (outcomes, again, other_s)
+        });
+        match r {
+            Err(p) => st.fail(format!("value:failing-writer:{}", panic_sig(&p)), case.clone(), size, format!("panicked: {p:?}")),
+            Ok((outcomes, again, other_s)) => {
+                if outcomes.iter().any(|o| *o) {
+                    st.fail("value:serialise-into-too-small-writer-succeeds", case.clone(), size, format!("{li}: {outcomes:?}"));
+                }
+                if again != want || other_s != "\"fr\"" {
+                    st.fail("value:state-leaks-after-failed-serialisation", case.clone(), size, format!("after failed serialisations: {li} -> {again}, fr -> {other_s}"));
+                }
+            }
+        }
     }
     for (name, b) in [("from_str", &back), ("from_value", &back_v)] {
         match b {
@@ -287,6 +359,20 @@ pub fn run(cfg: &Cfg) -> Stats {
         "[a-z]{2}[\\x00-\\x1f\"\\\\/]{0,2}(-[A-Z]{2})?",
     ];
     d.strategy("arbitrary Unicode strings, look-alike letters, control characters and JSON meta characters (proptest)", &uni, cfg.seed, "c19-unicode", n, |s: &String| s.as_bytes().to_vec());
+    let mut longs: Vec<Vec<u8>> = vec![];
+    for n in 0..200usize {
+        for ch in ["\u{e9}", "\u{20ac}", "\u{1f600}"] {
+            // a long, almost well-formed string with one multi-byte character at byte offset n
+            let mut base = String::from("en-Latn-US");
+            while base.len() < n {
+                base.push_str(["-valencia", "-1abc", "-abcde", "-x1y2z3"][base.len() % 4]);
+            }
+            base.truncate(n);
+            longs.push(format!("{base}{ch}-trailing").into_bytes());
+            longs.push(format!("{}{ch}", "a".repeat(n)).into_bytes());
+        }
+    }
+    d.list("long strings (0-200 bytes) with one 2-, 3- or 4-byte character at every byte offset", &longs);
     let c = gen::corpus(&cfg.repo);
     let all: Vec<Vec<u8>> = c.locale_names.iter().chain(c.likely_keys.iter()).chain(c.likely_vals.iter()).map(|s| s.as_bytes().to_vec()).collect();
     d.list("G5 CLDR locale names, likelySubtags keys and values", &all);
